@@ -44,33 +44,20 @@ func checkC04(c CaseRT) error {
 	}
 	// the reached objects must have the same content as the top-level entries: re-check directly on
 	// the library structs, independent of the normal form's BackRef bookkeeping
+	vehSet, tripSet := map[string]bool{}, map[string]bool{}
+	for j := range r.Vehicles {
+		vehSet[rgen.JS(rgen.Normalize1Vehicle(&r.Vehicles[j]))] = true
+	}
 	for i := range r.Trips {
-		t := &r.Trips[i]
-		if t.Vehicle == nil {
-			continue
-		}
-		found := false
-		for j := range r.Vehicles {
-			if rgen.JS(rgen.Normalize1Vehicle(&r.Vehicles[j])) == rgen.JS(rgen.Normalize1Vehicle(t.Vehicle)) {
-				found = true
-			}
-		}
-		if !found {
+		tripSet[rgen.JS(rgen.Normalize1Trip(&r.Trips[i]))] = true
+	}
+	for i := range r.Trips {
+		if t := &r.Trips[i]; t.Vehicle != nil && !vehSet[rgen.JS(rgen.Normalize1Vehicle(t.Vehicle))] {
 			return vt.Failf("Trips[%d].Vehicle has content that matches no entry of Vehicles: %s", i, rgen.JS(rgen.Normalize1Vehicle(t.Vehicle)))
 		}
 	}
 	for j := range r.Vehicles {
-		v := &r.Vehicles[j]
-		if v.Trip == nil {
-			continue
-		}
-		found := false
-		for i := range r.Trips {
-			if rgen.JS(rgen.Normalize1Trip(&r.Trips[i])) == rgen.JS(rgen.Normalize1Trip(v.Trip)) {
-				found = true
-			}
-		}
-		if !found {
+		if v := &r.Vehicles[j]; v.Trip != nil && !tripSet[rgen.JS(rgen.Normalize1Trip(v.Trip))] {
 			return vt.Failf("Vehicles[%d].Trip has content that matches no entry of Trips: %s", j, rgen.JS(rgen.Normalize1Trip(v.Trip)))
 		}
 	}
@@ -204,4 +191,54 @@ func TestC04Patterns(t *testing.T) {
 			}
 		}
 	}
+}
+
+// largeRT runs check on systematically large conflict-free messages (every (kind, size) combination in every tier).
+func largeRT[C any](t *testing.T, rec *vt.Recorder, combos [][2]int, mk func(t *rapid.T, zone string, m *rgen.Msg) C, check func(C) error) {
+	kinds := []string{"trips+vehicles", "stop-time-updates", "selectors", "alerts"}
+	for _, k := range combos {
+		what, n := k[0], k[1]
+		t.Run(fmt.Sprintf("%s-%d", kinds[what], n), func(outer *testing.T) {
+			fail := ""
+			defer func() {
+				if fail != "" {
+					outer.Fatalf("%s", fail)
+				}
+			}()
+			rapid.Check(outer, func(t *rapid.T) {
+				zone := rapid.SampledFrom([]string{"", "America/New_York", "Europe/London"}).Draw(t, "zone")
+				o := rgen.DefaultGenOpts(zone)
+				o.NoPartialDescriptors, o.NoSizeClasses = true, true
+				switch what {
+				case 0:
+					o.MaxTrips, o.MaxVehicles, o.MinTrips, o.MinVehicles = n, n, n, n
+					o.MaxSTU, o.MaxAlerts, o.MaxIdless, o.MinIdless = 1, 1, n/3, n/3 // a third as many vehicles without any identity
+				case 1:
+					o.MaxTrips, o.MinTrips, o.MaxSTU, o.MinSTU = 3, 2, n/2, n/2
+				case 2:
+					o.MaxAlerts, o.MinAlerts, o.MaxSelectors, o.MinSelectors = 1, 1, n, n
+				default:
+					o.MaxAlerts, o.MinAlerts, o.MaxSelectors = n, n, 2
+				}
+				m, _ := rgen.GenMsg(t, o)
+				c := mk(t, zone, m)
+				rec.Eval(fmt.Sprintf("large:%s>=%d", kinds[what], n))
+				rec.NontrivialCase(vt.Fingerprint([]any{zone, what, n, len(m.Entities)}), func() any {
+					return map[string]any{"zone": zone, "entities": len(m.Entities), "size": n, "of": kinds[what]}
+				})
+				if msg := vt.Try(rec, c, check); msg != "" && fail == "" {
+					fail = msg
+				}
+			})
+		})
+	}
+}
+
+// TestC04Large: links between 9000 / 70000 trips and as many vehicles, plus a third as many vehicles without any identity.
+func TestC04Large(t *testing.T) {
+	largeRT(t, c04Rec, [][2]int{{0, 9000}, {0, 70000}}, func(t *rapid.T, zone string, m *rgen.Msg) CaseRT {
+		c := CaseRT{Zone: zone, Msg: m}
+		c.Env = genEnv(t)
+		return c
+	}, checkC04)
 }
